@@ -30,7 +30,7 @@ def load(name):
 
 
 def make_scratch(name, edits):
-    d = os.path.join(VERIF, '.build', 'selftest', name)
+    d = os.path.join(VERIF, '.build', 'selftest', '%s-%d' % (name, os.getpid()))
     shutil.rmtree(d, ignore_errors=True)
     os.makedirs(d)
     for sub in ('include', 'development', 'tools'):
